@@ -58,4 +58,11 @@ CHECKS.update({
         "technique": "AST-driven bounded SMT encoding (z3, LIA over code points) of the repo's string-literal kernel with path forking by re-execution; translator validation on concrete corpus",
     },
 })
+CHECKS.update({
+    "C20": {
+        "text": "_rewrite_code.SourceFile.new_code is executed symbolically with texts abstracted to ids and the formatter replaced by an arbitrary idempotent function on a 5-element domain (complete for this code: at most 4 distinct texts occur): the solver confirms that a clean file yields a fixed point of the formatter, an unclean file without format-command yields the raw replacement (new content never passed to the formatter), and a format-command always formats. file_mode_for_path is executed with a symbolic [tool.black] configuration and must produce the documented Mode fields (negated skip flags).",
+        "note": "That black itself is idempotent on the produced text cannot be encoded (mypyc): observed on a fixed corpus (labelled contract validation) and on the clean layout template of C03. asttokens' replace step is abstracted to 'yields text r'.",
+        "technique": "symbolic execution (CrossHair + z3) of the real new_code / file_mode_for_path over an abstract text domain with an uninterpreted idempotent formatter table",
+    },
+})
 NOT_APPLICABLE = {}
